@@ -173,6 +173,18 @@ func (p flushPort) Write(b []byte) (int, error) { return p.c.Write(b) }
 func (p flushPort) Close() error                { return p.c.Close() }
 func (p flushPort) Flush() error {
 	*p.flushes++
+	// what has arrived and has not been read is gone (what is still on its way cannot be reached by a flush)
+	p.c.lock()
+	now := time.Now()
+	kept := p.c.in.segs[:0]
+	for _, sg := range p.c.in.segs {
+		if sg.at.IsZero() || sg.at.After(now) {
+			kept = append(kept, sg)
+		}
+	}
+	p.c.in.segs = kept
+	p.c.in.headAt(now)
+	p.c.unlock()
 	p.c.sim.Logf("flush %s", p.c.Name)
 	return p.failErr
 }
